@@ -24,19 +24,19 @@ type Failure struct {
 
 // Result is what `cases` leaves behind for the driver
 type Result struct {
-	Property           string                 `json:"property"`
-	Seed               int64                  `json:"seed"`
-	Tier               string                 `json:"tier"`
-	Evaluations        int                    `json:"evaluations"`
-	DistinctNontrivial int                    `json:"distinct_nontrivial"`
-	Rule               string                 `json:"rule"`
-	Samples            []interface{}          `json:"samples"`
+	Property           string                    `json:"property"`
+	Seed               int64                     `json:"seed"`
+	Tier               string                    `json:"tier"`
+	Evaluations        int                       `json:"evaluations"`
+	DistinctNontrivial int                       `json:"distinct_nontrivial"`
+	Rule               string                    `json:"rule"`
+	Samples            []interface{}             `json:"samples"`
 	Histograms         map[string]map[string]int `json:"histograms"`
-	CaseFiles          []string               `json:"case_files"`
-	CaseInputs         map[string]interface{} `json:"-"`
-	Failures           []Failure              `json:"failures"`
-	Notes              []string               `json:"notes,omitempty"`
-	Exhaustive         bool                   `json:"exhaustive,omitempty"`
+	CaseFiles          []string                  `json:"case_files"`
+	CaseInputs         map[string]interface{}    `json:"-"`
+	Failures           []Failure                 `json:"failures"`
+	Notes              []string                  `json:"notes,omitempty"`
+	Exhaustive         bool                      `json:"exhaustive,omitempty"`
 }
 
 // Run is the state of one `cases` invocation
